@@ -221,6 +221,9 @@ def collect(
         assert issubclass(target, Target)
         target = target()
 
+    if keep_col_refs:
+        _check_grouping_cols_visible(table, "collect")
+
     df = table >> export(Polars(lazy=False))
 
     if not keep_col_refs:
@@ -938,6 +941,7 @@ def summarize(table: Table, **kwargs: ColExpr) -> Pipeable:
     """
     names, values = list(kwargs.keys()), list(kwargs.values())
     uuids = [uuid.uuid1() for _ in names]
+    _check_grouping_cols_visible(table, "summarize")
     new = copy.copy(table)
 
     preprocessed = []
@@ -1619,6 +1623,17 @@ def ast_repr(table: Table, verb_depth: int = 7, expr_depth: int = 2, *, pipe: bo
 
     print(table._ast.ast_repr(verb_depth, expr_depth), end="")
     return table if pipe else None
+
+
+def _check_grouping_cols_visible(table: Table, verb_name: str):
+    # The grouping columns are part of the result of these verbs, so they need a name.
+    for uid in table._cache.partition_by:
+        if uid not in table._cache.uuid_to_name:
+            raise ValueError(
+                f"cannot apply `{verb_name}` to the table `{table._ast.short_name()}`: the grouping column "
+                f"`{table._cache.cols[uid].name}` has been deselected or overwritten\n"
+                "hint: keep the grouping columns selected, or `ungroup` / re-group the table before this verb."
+            )
 
 
 def preprocess_arg(arg: ColExpr, table: Table, *, agg_is_window: bool = True) -> Any:
